@@ -1,6 +1,8 @@
 import Logrange.Proofs.Points
 import Logrange.Proofs.WriteLoopHull
 import Logrange.Proofs.ChunkHist
+import Logrange.Proofs.PointsMerge
+import Logrange.Proofs.PartScan
 import Logrange.Model.RangedIter
 /-!
 # C02 — Time-range queries return exactly the events whose timestamp is in range
@@ -137,12 +139,14 @@ theorem addInterval_preserves_append {tsOf : Nat → Int} {n n' : Nat} {pts : Li
     (hg : GapCovered pts it tsOf) (he : pts = [] → it.p0.idx = 0) : IndexSound tsOf n' (add pts it) :=
   Points.add_preserves_append it hs hcase hn hle hn' hb hg he
 
-/-- the full statement (all three cases of `block.addInterval`: append / merge into the covering interval / collapse);
-only the append case is proved, the other two are exercised by the harness (sections `tree`, `cindex`, `system`) -/
-def addInterval_preserves_full : Prop :=
-  ∀ (tsOf : Nat → Int) (n n' : Nat) (pts : List Pt) (it : Iv), IndexSound tsOf n pts →
-    it.p0.idx = n → it.p0.idx ≤ it.p1.idx → n' = it.p1.idx + 1 → BatchIn it tsOf → GapCovered pts it tsOf →
-    (pts = [] → it.p0.idx = 0) → IndexSound tsOf n' (add pts it)
+/-- **addInterval_preserves** — the full statement, all three cases of `block.addInterval` at level 0: append, merge into
+the covering interval (records after it dropped, `p1.ts := max p1.ts last.ts`), collapse (`p0 := reduce p0 first`). The
+only hypotheses are the honest ones: the interval covers its batch (`BatchIn`) and the skipped positions before it lie
+below its upper timestamp (`GapCovered` — what fails for jittered streams, finding #4). -/
+theorem addInterval_preserves {tsOf : Nat → Int} {n n' : Nat} {pts : List Pt} (it : Iv) (hs : IndexSound tsOf n pts)
+    (hn : it.p0.idx = n) (hle : it.p0.idx ≤ it.p1.idx) (hn' : n' = it.p1.idx + 1) (hb : BatchIn it tsOf)
+    (hg : GapCovered pts it tsOf) (he : pts = [] → it.p0.idx = 0) : IndexSound tsOf n' (add pts it) :=
+  Points.add_preserves it hs hn hle hn' hb hg he
 
 /-- a write the sparse index skips keeps the index sound when the new records are not below the last point -/
 theorem skip_preserves {tsOf : Nat → Int} {n n' : Nat} {pts : List Pt} (hs : IndexSound tsOf n pts) (hnn : n ≤ n')
@@ -300,6 +304,68 @@ theorem range_eq_filter_monotone {tsOf : Nat → Int} (sparse bigGap : Nat) (bs 
     exact this
 
 example : (ChunkHist.run 250 5000 [⟨300, 100, 200⟩, ⟨10, 200, 205⟩, ⟨300, 205, 300⟩]).pts = [⟨100, 0⟩, ⟨200, 299⟩, ⟨300, 609⟩] := by decide
+
+/-! ## the whole partition: selector stepping as a fold over chunks -/
+
+/-- **scan_is_fold_over_chunks**: `getPosForward` (first chunk whose status accepts the entry index, `checkPosOrAdvance`),
+`Get` (deliver while below the count), `Next` (leave the chunk when the next position is outside the window) and
+`advanceChunk` together deliver, chunk after chunk, exactly the positions inside each chunk's window. -/
+theorem scan_is_fold_over_chunks (cs : List Selector.ChkSt) : PartScan.scanAll cs = PartScan.journalPositions cs 0 :=
+  PartScan.scanAll_eq cs
+
+/-- **range_eq_filter_partition**: for a journal of chunks whose windows are complete (every in-range position of a
+chunk lies inside the window `updatePoss` computes for it), the ranged read over the WHOLE partition equals the filter
+of the unbounded read — same events, same order. -/
+theorem range_eq_filter_partition (ts : Nat → Nat → Int) (cs : List PartScan.ChunkMeta) (r : TmRange)
+    (hall : PartScan.AllComplete ts cs 0) :
+    PartScan.rangedRead ts cs r = (PartScan.fullPositions cs 0).filter (fun kp => decide (inRange r (ts kp.1 kp.2))) :=
+  PartScan.partition_read_eq_filter ts cs r hall
+
+/-- a sound hull and a sound (or missing) index make a chunk's windows complete -/
+theorem windowComplete_of_sound {tsOf : Nat → Int} (c : PartScan.ChunkMeta) (hh : HullSound c.hull tsOf c.n)
+    (hi : ∀ pts, c.idx = some pts → IndexSound tsOf c.n pts) (hn : c.n ≤ maxU32) (hmin : minI64 ≤ c.hull.minTs) :
+    PartScan.WindowComplete tsOf c :=
+  fun r p hp hr => window_complete c.hull c.idx r hh hi hn hmin p hp hr
+
+/-- the index state of chunk `k` after its notification history, as the selector sees it -/
+def metaOfRun (sparse bigGap : Nat) (bs : List ChunkHist.Batch) : PartScan.ChunkMeta :=
+  { n := ChunkHist.total bs, hull := (ChunkHist.run sparse bigGap bs).hull.getD ⟨0, 0⟩,
+    idx := ChunkHist.idxOf (ChunkHist.run sparse bigGap bs) }
+
+/-- every chunk `k, k+1, …` of the partition was written by a non-empty monotone history with exact batch hulls -/
+def MonotoneChunks (ts : Nat → Nat → Int) : List (List ChunkHist.Batch) → Nat → Prop
+  | [], _ => True
+  | bs :: rest, k =>
+    (Monotone (ts k) (ChunkHist.total bs) ∧ ChunkHist.BatchesExact (ts k) 0 bs ∧ ChunkHist.total bs ≤ maxU32 ∧
+      (∀ q, q < ChunkHist.total bs → minI64 ≤ ts k q)) ∧ MonotoneChunks ts rest (k + 1)
+
+theorem allComplete_of_monotoneChunks (sparse bigGap : Nat) (ts : Nat → Nat → Int) :
+    ∀ (bss : List (List ChunkHist.Batch)) (k : Nat), MonotoneChunks ts bss k →
+      PartScan.AllComplete ts (bss.map (metaOfRun sparse bigGap)) k := by
+  intro bss
+  induction bss with
+  | nil => intro k _; trivial
+  | cons bs rest ih =>
+    intro k h
+    obtain ⟨⟨hm, he, hn, hlow⟩, hrest⟩ := h
+    refine ⟨?_, ih (k + 1) hrest⟩
+    intro r p hp hr
+    obtain ⟨h, hh, hw⟩ := window_complete_monotone sparse bigGap bs hm he hn hlow r p hp hr
+    simp only [metaOfRun, hh, Option.getD_some]
+    exact hw
+
+/-- **range_eq_filter_partition_monotone**: a partition whose chunks were each written by a monotone history of OnWrite
+notifications with exact batch hulls (any batch sizes, any sparsity constants, skip / big-gap / append decisions as in
+`cindex.onWrite`): for EVERY range the ranged read over the whole partition — per-chunk windows from hull and index,
+selector/iterator stepping chunk by chunk, range re-check — equals the filter of the unbounded read. -/
+theorem range_eq_filter_partition_monotone (sparse bigGap : Nat) (ts : Nat → Nat → Int) (bss : List (List ChunkHist.Batch))
+    (h : MonotoneChunks ts bss 0) (r : TmRange) :
+    PartScan.rangedRead ts (bss.map (metaOfRun sparse bigGap)) r =
+      (PartScan.fullPositions (bss.map (metaOfRun sparse bigGap)) 0).filter (fun kp => decide (inRange r (ts kp.1 kp.2))) :=
+  range_eq_filter_partition ts _ r (allComplete_of_monotoneChunks sparse bigGap ts bss 0 h)
+
+example : PartScan.scanAll [⟨2, 4, 10⟩, ⟨4294967295, 4294967295, 5⟩, ⟨0, 4294967295, 3⟩] =
+    [(0, 2), (0, 3), (0, 4), (2, 0), (2, 1), (2, 2)] := by decide
 
 /-! ## counterexample for the open finding #4 -/
 
